@@ -25,6 +25,7 @@ THEOREMS = [
     "C11_unreadable_is_error", "C11_ok_only_from_declared",
     "C11_source_shape_pinned", "C11_wheel_end_to_end_partial", "C11_reqs_intact_parsed",
     "C11_headers_partial_sharp", "C11_spec_reads_rendered", "C11_rendered_metadata_read_back",
+    "C11_read_sees_current_content", "C11_read_history_independent",
 ]
 RULE = ("(a) generated METADATA texts (field order and case, 0-8 Requires-Dist with extras/markers/parenthesised "
         "specifiers/URLs, folded and duplicated headers, bodies with header-like lines, non-ASCII, CRLF, BOM, exotic white "
@@ -33,7 +34,8 @@ RULE = ("(a) generated METADATA texts (field order and case, 0-8 Requires-Dist w
         "same-project dist-info, .data nesting, METADATA.bak, duplicate members, no dist-info, not-a-zip, truncated, CRC-broken) "
         "run through extract_metadata and the extracted extract_whl (third-party parse_version/Requirement.parse answers handed "
         "to the model as tables); (c) name lists against _find_dist_info_metadata; (d) str.strip; (e) the specification "
-        "rfc822_fields against the stdlib email parser.  Non-trivial = a distribution was produced with at least one "
+        "rfc822_fields against the stdlib email parser; (f) histories in ONE process: the file at one path is written, read, replaced "
+        "(valid->other valid, unreadable->valid, valid->unreadable, unchanged) and read again, against the extracted run_ops.  Non-trivial = a distribution was produced with at least one "
         "requirement, or a dist-info had to be chosen among several; distinct = distinct (text) / (wheel layout, text).")
 TRUSTED_BASE = [
     "T1 harness/tr_c11.py: regex texts, prefixes, split/partition shapes, first-wins guards, reversed(), handlers -> gen/WheelC11Consts.v (template re-render equality on the whole functions)",
@@ -261,13 +263,16 @@ def encode_text(rng, text: str) -> bytes:
     return b
 
 
-def gen_wheel(rng, malformed: bool) -> Dict[str, Any]:
-    """A wheel description: basename, ordered members [(name, bytes)], corruption kind."""
+def gen_wheel(rng, malformed: bool, same_as: Optional[Dict[str, Any]] = None, layouts: Optional[List[str]] = None) -> Dict[str, Any]:
+    """A wheel description: basename, ordered members [(name, bytes)], corruption kind.
+    same_as: reuse that wheel's project/version/file name (a rebuilt / re-downloaded wheel at the same path)."""
     proj = rng.choice(NAME_POOL + ["foo+bar", "c++", "we(i)rd"] if rng.random() < 0.04 else NAME_POOL)
     ver = rng.choice(["1.0", "2.3.4", "0.1a1", "1.0.post2"])
     base = "%s-%s-%s.whl" % (proj, ver, rng.choice(["py3-none-any", "cp312-cp312-manylinux_2_17_x86_64", "1-py2.py3-none-any"]))
     if rng.random() < 0.05:
         base = base[:-4] + rng.choice([".WHL", ".Whl"])
+    if same_as is not None:
+        proj, ver, base = same_as["proj"], same_as["ver"], same_as["basename"]
     text, tags = gen_metadata(rng, malformed and rng.random() < 0.5)
     own_dir = "%s-%s.dist-info" % (proj, ver)
     layout = rng.choice(["own-last"] * 5 + ["own-first", "own-middle", "own-lower", "nested-own", "none", "no-metadata-file",
@@ -277,6 +282,10 @@ def gen_wheel(rng, malformed: bool) -> Dict[str, Any]:
                                              "nonascii-members", "nodash-basename", "dot-wildcard-after"])
     if malformed and rng.random() < 0.5:
         layout = rng.choice(["none", "no-metadata-file", "not-zip", "truncated", "bad-crc", "empty-file", "other-only", "zero-members"])
+    if layouts:
+        layout = rng.choice(layouts)
+    if same_as is not None and layout == "nodash-basename":
+        layout = "own-last"          # that layout renames the file
     pkg = [(proj.replace(".", "/").lower() + "/__init__.py", b"# init\n"), (proj.lower() + "/core.py", b"x = 1\n")]
     own = [(own_dir + "/METADATA", encode_text(rng, text)), (own_dir + "/WHEEL", b"Wheel-Version: 1.0\n"), (own_dir + "/RECORD", b"")]
     def other_meta(n: str, v: str, extra: str = "") -> bytes:
@@ -347,11 +356,15 @@ def gen_wheel(rng, malformed: bool) -> Dict[str, Any]:
         members = []
     tags.update({"layout": layout, "project": proj})
     return {"basename": base, "members": members, "layout": layout, "tags": tags, "own": own_dir + "/METADATA",
-            "compress": rng.random() < 0.3}
+            "compress": rng.random() < 0.3, "proj": proj, "ver": ver}
 
 
 def write_wheel(path: str, w: Dict[str, Any]) -> None:
     layout = w["layout"]
+    if layout == "raw-bytes":
+        with open(path, "wb") as fh:
+            fh.write(w["raw"])
+        return
     if layout == "not-zip":
         with open(path, "wb") as fh:
             fh.write(b"this is not a zip archive\n" * 3)
@@ -648,6 +661,123 @@ def correspondence(ctx: Ctx) -> None:
         wheels.append((w, path))
     run_wheels(ctx, MD, orc, wheels)
 
+    # (f) one process, the same path read several times with the file replaced in between
+    seqs = [gen_sequence(rng) for _ in range(ctx.n(150, 2500))]
+    run_sequences(ctx, MD, orc, seqs)
+
+
+UNREADABLE_LAYOUTS = ["truncated", "not-zip", "empty-file", "none", "no-metadata-file", "bad-crc", "zero-members"]
+
+
+def gen_sequence(rng) -> Dict[str, Any]:
+    """[first wheel, replacement, ...] at ONE path; each step = (re)write the file, then read it
+    `reads` times.  Kinds: valid -> other valid (rebuilt), unreadable -> valid (re-download after a
+    truncated one), valid -> unreadable, unchanged."""
+    kind = rng.choice(["valid-valid", "valid-valid", "unreadable-valid", "unreadable-valid", "valid-unreadable", "any", "missing-first"])
+    first = gen_wheel(rng, False, layouts=UNREADABLE_LAYOUTS if kind == "unreadable-valid" else (["own-last", "own-first", "vendored-other"] if kind != "any" else None))
+    first["proj"] = first["proj"] if "+" not in first["proj"] and "(" not in first["proj"] else "foo"
+    steps = [first]
+    for _ in range(rng.choice([1, 1, 2])):
+        if kind == "valid-unreadable":
+            nxt = gen_wheel(rng, False, same_as=first, layouts=UNREADABLE_LAYOUTS)
+        elif kind == "any":
+            nxt = gen_wheel(rng, rng.random() < 0.3, same_as=first)
+        else:
+            nxt = gen_wheel(rng, False, same_as=first, layouts=["own-last", "own-last", "own-first", "vendored-other", "many-vendored"])
+        steps.append(nxt)
+    return {"kind": kind, "basename": first["basename"], "steps": steps, "reads": [rng.choice([1, 1, 2]) for _ in steps],
+            "missing_first": kind == "missing-first"}
+
+
+def run_sequences(ctx: Ctx, MD, orc: Oracles, seqs: List[Dict[str, Any]], where: str = "read-sequence") -> None:
+    """Implementation: all reads of one sequence happen in THIS process at one path.  Model: run_ops."""
+    tmp = ctx.tmpdir()
+    items = []
+    for k, sq in enumerate(seqs):
+        d = tmp / ("q%d-%d" % (ctx.evaluations, k))
+        d.mkdir(exist_ok=True)
+        path = str(d / sq["basename"])
+        base_tok = hx(sq["basename"])
+        ops: List[str] = []
+        impl: List[Any] = []
+        archives = []
+        ok = True
+        if sq.get("missing_first"):
+            ops.append("R " + base_tok)
+            impl.append(impl_wheel(MD, path))
+        for w, nreads in zip(sq["steps"], sq["reads"]):
+            if os.path.exists(path):
+                os.remove(path)
+            write_wheel(path, w)
+            a = abstract_archive(path)
+            if a is None:
+                ok = False
+                break
+            archives.append(a)
+            ops.append("W %s %s" % (base_tok, archive_tokens(a)))
+            for _ in range(nreads):
+                ops.append("R " + base_tok)
+                impl.append(impl_wheel(MD, path))
+        if not ok:
+            ctx.count("sequence:unmodelled-zip-error")
+            continue
+        items.append((sq, ops, impl, archives))
+    # oracle tables: union over the archives of the sequence (pass 1 = what each archive yields now)
+    r_lines, owner = [], []
+    for i, (sq, ops, impl, archives) in enumerate(items):
+        for a in archives:
+            r_lines.append("R %s %s" % (hx(sq["basename"]), archive_tokens(a)))
+            owner.append(i)
+    vs: List[set] = [set() for _ in items]
+    rs: List[set] = [set() for _ in items]
+    for i, ans in zip(owner, run_model("C11", r_lines)):
+        toks = ans.split()
+        if toks and toks[0] == "FLAT":
+            f = read_flat(Rd(toks[1:]))
+            if f.get("ver") is not None:
+                vs[i].add(f["ver"])
+            if f["k"] == "OK":
+                rs[i].update(f["post"])
+    q_lines = []
+    for i, (sq, ops, impl, archives) in enumerate(items):
+        v, r = sorted(vs[i]), sorted(rs[i])
+        tab = ("%d" % len(v) + "".join(" %s %d" % (hx(x), orc.ver(x) is not None) for x in v) +
+               " %d" % len(r) + "".join(" %s %d" % (hx(x), orc.req(x) is not None) for x in r))
+        q_lines.append("Q %d %s %s" % (len(ops), " ".join(ops), tab))
+    for (sq, ops, impl, archives), ans in zip(items, run_model("C11", q_lines)):
+        ctx.count("kind:sequence")
+        ctx.count("sequence:" + sq["kind"])
+        got: List[Any] = []
+        unmodelled = False
+        for part in (ans.split(" ; ") if ans else []):
+            toks = part.split()
+            if toks[0] == "NOFILE":
+                got.append(["EXC", "FileNotFoundError"])
+            elif toks[:2] == ["ERR", "Unmodelled"]:
+                unmodelled = True
+            elif toks[0] == "ERR":
+                got.append(["EXC", toks[1]])
+            elif toks[0] == "OK":
+                rd = Rd(toks[1:])
+                n, v, rr = rd.s(), rd.opt(), rd.strs()
+                got.append(["OK", n, None if v is None else orc.ver(v), [orc.req(x) for x in rr], "DistInfo"])
+            else:
+                got.append(["?", part])
+        case = {"basename": sq["basename"], "missing_first": bool(sq.get("missing_first")), "reads": sq["reads"],
+                "steps": [archive_json(a) for a in archives]}
+        changed = len({json.dumps(archive_json(a), sort_keys=True) for a in archives}) > 1
+        ctx.case(key=("Q", json.dumps(case, sort_keys=True)), nontrivial=changed and any(o[0] == "OK" for o in impl),
+                 sample={"kind": "sequence", "case_kind": sq["kind"], "basename": sq["basename"], "impl": impl, "model": got} if ctx.evaluations % 61 == 0 else None)
+        if unmodelled:
+            ctx.count("sequence:unmodelled-project")
+            continue
+        if got != impl:
+            ctx.mismatch(where, {"sequence": case}, impl, got)
+
+
+def archive_json(a: Tuple[str, List[Tuple[str, Optional[str]]]]) -> Any:
+    return [a[0], [[n, t] for n, t in a[1]]]
+
 
 def run_wheels(ctx: Ctx, MD, orc: Oracles, wheels: List[Tuple[Dict[str, Any], str]], where: str = "extract_metadata") -> None:
     items = []
@@ -867,9 +997,21 @@ def search(ctx: Ctx) -> Optional[Dict[str, Any]]:
                 why = oracle_names(DI, c["project"], c["names"])
                 if why:
                     return {"kind": "names", "input": {"project": c["project"], "names": c["names"]}, "why": why}
+            elif isinstance(c, dict) and "sequence" in c:
+                q = c["sequence"]
+                steps = [{"basename": q["basename"], "layout": "not-zip", "members": [], "own": "", "compress": False} if a[0] == "B" else
+                         {"basename": q["basename"], "layout": "replay", "own": "", "compress": False,
+                          "members": [(n, (t or "").encode("utf-8")) for n, t in a[1]]} for a in q["steps"]]
+                found = oracle_sequence(MD, DI, orc, tmp, {"basename": q["basename"], "steps": steps, "reads": q["reads"]}, "m%d" % k)
+                if found:
+                    return found
         except Exception:
             continue
-    # 2. fresh inputs
+    # 2. fresh inputs: histories first (cheap), then texts, then single wheels
+    for i in range(ctx.n(300, 3000)):
+        found = oracle_sequence(MD, DI, orc, tmp, gen_sequence(rng), "f%d" % i)
+        if found:
+            return found
     for i in range(ctx.n(3000, 30000)):
         t, _ = gen_metadata(rng, rng.random() < 0.15)
         why = oracle_text(DI, orc, t)
@@ -888,6 +1030,35 @@ def search(ctx: Ctx) -> Optional[Dict[str, Any]]:
                 return {"kind": "wheel", "input": {"basename": w["basename"], "members": [[n, t] for n, t in a[1]]}, "why": why}
             return {"kind": "wheel-bytes", "input": {"basename": w["basename"], "hex": open(path, "rb").read().hex()}, "why": why}
     return None
+
+
+def oracle_sequence(MD, DI, orc: Oracles, tmpdir, sq: Dict[str, Any], tag: str) -> Optional[Dict[str, Any]]:
+    """Property statement on a history: after every (re)write of the file at one path, what
+    extract_metadata returns equals what the archive at that path declares NOW (oracle_wheel on the
+    current file).  Returns a replayable failing input or None."""
+    d = tmpdir / ("sq-" + tag)
+    d.mkdir(exist_ok=True)
+    path = str(d / sq["basename"])
+    done = []
+    if os.path.exists(path):
+        os.remove(path)
+    for w, nreads in zip(sq["steps"], sq["reads"]):
+        if os.path.exists(path):
+            os.remove(path)
+        write_wheel(path, w)
+        with open(path, "rb") as fh:
+            done.append({"hex": fh.read().hex(), "reads": nreads})
+        for _ in range(nreads):
+            why = oracle_wheel(MD, DI, orc, w, path)
+            if why:
+                return {"kind": "sequence", "input": {"basename": sq["basename"], "steps": done},
+                        "why": "read #%d of the same path after its content was replaced: %s" % (len(done), why) if len(done) > 1 else why}
+    return None
+
+
+def seq_from_payload(inp: Dict[str, Any]) -> Dict[str, Any]:
+    return {"basename": inp["basename"], "reads": [st["reads"] for st in inp["steps"]],
+            "steps": [{"basename": inp["basename"], "layout": "raw-bytes", "raw": bytes.fromhex(st["hex"])} for st in inp["steps"]]}
 
 
 def _utf8_faithful(path: str, a: Any) -> bool:
@@ -926,6 +1097,8 @@ def replay(ctx: Ctx, payload: Dict[str, Any]) -> bool:
     if fi["kind"] == "names":
         return oracle_names(DI, fi["input"]["project"], fi["input"]["names"]) is not None
     tmp = ctx.tmpdir()
+    if fi["kind"] == "sequence":
+        return oracle_sequence(MD, DI, orc, tmp, seq_from_payload(fi["input"]), "replay") is not None
     path = str(tmp / fi["input"]["basename"])
     if fi["kind"] == "wheel-bytes":
         with open(path, "wb") as fh:
